@@ -87,10 +87,12 @@ pub struct SumCfg {
     pub lone_recursive_payload: bool,
     /// match functions whose parameter carries no type annotation
     pub unannotated_params: bool,
+    /// values of recursive (boxed) types built inside dsp, i.e. once per sample
+    pub boxed_per_sample: bool,
 }
 impl Default for SumCfg {
     fn default() -> Self {
-        SumCfg { lone_recursive_payload: true, unannotated_params: true }
+        SumCfg { lone_recursive_payload: true, unannotated_params: true, boxed_per_sample: true }
     }
 }
 
@@ -145,7 +147,8 @@ pub fn generate(g: &mut Gen, cfg: &SumCfg) -> SumProg {
     }
     let nv = g.int(1, 4) as usize;
     let mut values = vec![];
-    let time = g.bool(2, 3);
+    let any_rec = types.iter().any(|t| t.rec);
+    let time = g.bool(2, 3) && (cfg.boxed_per_sample || !any_rec);
     for vi in 0..nv {
         let ty = fns[g.usize_below(fns.len())].ty;
         let e = value_expr(g, &types[ty], 3, time);
@@ -163,7 +166,7 @@ pub fn generate(g: &mut Gen, cfg: &SumCfg) -> SumProg {
     if terms.is_empty() {
         terms.push("0.0".into());
     }
-    let global_values = !time && g.bool(1, 3);
+    let global_values = !time && (g.bool(1, 3) || (any_rec && !cfg.boxed_per_sample));
     SumProg { types, fns, values, result: terms.join(" + "), global_values }
 }
 
